@@ -21,11 +21,11 @@ import (
 
 	"verifh/engine"
 
+	gomysql "github.com/go-sql-driver/mysql"
 	"github.com/pinealctx/neptune/store/gormx"
 	"github.com/pinealctx/neptune/ulog"
 	"go.uber.org/zap"
 	"go.uber.org/zap/zapcore"
-	gomysql "github.com/go-sql-driver/mysql"
 	"gorm.io/driver/mysql"
 	"gorm.io/gorm"
 	"gorm.io/gorm/logger"
@@ -76,31 +76,33 @@ var Prop = &engine.Prop{
 		{Name: "prepstmt-combine", Quick: 1, Thorough: 1, Fn: func(k *engine.Case) { enumModes(k, modePrepStmt, true) }},
 		{Name: "gormpool-len", Quick: 1, Thorough: 1, Fn: func(k *engine.Case) { enumModes(k, modePool, false) }},
 		{Name: "gormpool-combine", Quick: 1, Thorough: 1, Fn: func(k *engine.Case) { enumModes(k, modePool, true) }},
+		{Name: "translate-len", Quick: 1, Thorough: 1, Fn: func(k *engine.Case) { enumModes(k, modeTranslate, false) }},
 		{Name: "mixed", Quick: 400, Thorough: 200000, Fn: mixedCase},
 		{Name: "sequence", Quick: 200, Thorough: 100000, Fn: sequenceCase},
 		{Name: "handles", Quick: 120, Thorough: 20000, Fn: handlesCase},
 	},
 	// All floors are far below what the (deterministic) enumeration produces.
 	Floors: map[string]int64{
-		"stated_space_combinations":      2728, // lengths 0..4: sum 4^N * 8, reached exactly in every run
-		"enum_combinations":              40000,
-		"enum_blocks_completed":          9,
-		"enum_blocks_completed_prepstmt": 7,
-		"enum_blocks_completed_gormpool": 7,
-		"no_steps_nothing_begun":         8,
-		"begin_refused":                  1000,
-		"committed":                      100,
-		"commit_refused":                 100,
-		"rolled_back":                    500,
-		"rollback_refused":               500,
-		"first_failure_error":            300,
-		"first_failure_panic_string":     300,
-		"first_failure_panic_error":      300,
-		"leaves_skipped_after_failure":   500,
-		"combine_early_exit":             200,
-		"mixed_programs":                 1000,
-		"sequence_transactions":          200,
-		"exec_refused":                   50,
+		"stated_space_combinations":       2728, // lengths 0..4: sum 4^N * 8, reached exactly in every run
+		"enum_combinations":               40000,
+		"enum_blocks_completed":           9,
+		"enum_blocks_completed_prepstmt":  7,
+		"enum_blocks_completed_gormpool":  7,
+		"enum_blocks_completed_translate": 4,
+		"no_steps_nothing_begun":          8,
+		"begin_refused":                   1000,
+		"committed":                       100,
+		"commit_refused":                  100,
+		"rolled_back":                     500,
+		"rollback_refused":                500,
+		"first_failure_error":             300,
+		"first_failure_panic_string":      300,
+		"first_failure_panic_error":       300,
+		"leaves_skipped_after_failure":    500,
+		"combine_early_exit":              200,
+		"mixed_programs":                  1000,
+		"sequence_transactions":           200,
+		"exec_refused":                    50,
 	},
 }
 
@@ -340,12 +342,13 @@ func (n *node) build(srv *server) gormx.GormProcFn {
 type envMode int
 
 const (
-	modeSQL      envMode = iota // database/sql + the fake driver (gorm's default set-up)
-	modePrepStmt                // the same with gorm.Config{PrepareStmt: true} (statement cache; transactions are PreparedStmtTX)
-	modePool                    // a gorm.ConnPool / ConnPoolBeginner of the harness, no database/sql
+	modeSQL       envMode = iota // database/sql + the fake driver (gorm's default set-up)
+	modePrepStmt                 // the same with gorm.Config{PrepareStmt: true} (statement cache; transactions are PreparedStmtTX)
+	modePool                     // a gorm.ConnPool / ConnPoolBeginner of the harness, no database/sql
+	modeTranslate                // database/sql with gorm.Config{TranslateError: true}: gorm rewrites driver errors it records (1062 -> ErrDuplicatedKey)
 )
 
-var modeNames = [...]string{"sql", "prepstmt", "gormpool"}
+var modeNames = [...]string{"sql", "prepstmt", "gormpool", "translate"}
 
 type env struct {
 	mode  envMode
@@ -372,7 +375,7 @@ func newEnv(mode envMode) (*env, error) {
 		return nil, err
 	}
 	db, err := gorm.Open(mysql.New(mysql.Config{Conn: sqlDB, SkipInitializeWithVersion: true}),
-		&gorm.Config{Logger: logger.Discard, PrepareStmt: mode == modePrepStmt})
+		&gorm.Config{Logger: logger.Discard, PrepareStmt: mode == modePrepStmt, TranslateError: mode == modeTranslate})
 	if err != nil {
 		sqlDB.Close()
 		theDriver.drop(dsn)
@@ -1033,7 +1036,7 @@ func randomPlan(k *engine.Case) plan {
 }
 
 func mixedCase(k *engine.Case) {
-	mode := envMode(k.R.Intn(3))
+	mode := envMode(k.R.Intn(4))
 	k.Count("mixed_cases_"+modeNames[mode], 1)
 	st := newStateMode(k, mode)
 	defer st.done()
@@ -1049,7 +1052,7 @@ func mixedCase(k *engine.Case) {
 // sequenceCase: several Transact calls one after the other on the same *gorm.DB (and
 // therefore the same connection pool); each is judged on its own slice of the log.
 func sequenceCase(k *engine.Case) {
-	mode := envMode(k.R.Intn(3))
+	mode := envMode(k.R.Intn(4))
 	k.Count("sequence_cases_"+modeNames[mode], 1)
 	st := newStateMode(k, mode)
 	defer st.done()
